@@ -33,6 +33,10 @@ func rulesC12(c *Ctx) {
 	// "circuit breakers … alike": what the breaker's executor records is the verdict of the classification just made
 	// (a success recorded through the re-classifying standalone API loses the outcome's error)
 	c04Pairing(c)
+	// "an outcome is a failure exactly when …": what a policy does with an outcome follows the classification — the
+	// shared PostExecute marks the result a success or a failure by IsFailure and nothing else
+	c01PostExecute(c)
+	c01Verdict(c)
 }
 
 // ---- C12.isfailure -------------------------------------------------------------------------------------
